@@ -79,6 +79,10 @@ def check_predict(chk, rep, repo, cls, fields):
     okdom = li.domain == ("call", ("builtin", "range"), (kterm,), ())
     rep.fn("ARGMAX-domain", fn, f"for r in {show(li.domain)}", okdom, "the arg-max must visit ranks 0..k-1", line=li.line)
     need = ("cmp", "!=", *sorted([K("FLOAT_MAX"), ("idx", sc.D, r)], key=repr))
+    from ..rules_knn import validity_tests
+    valid_forms = validity_tests(sc, w, r)
+    if len(bs.outer_guards) == 1 and bs.outer_guards[0] in valid_forms:
+        need = bs.outer_guards[0]
     rep.fn("ARGMAX-valid", fn, "only filled slots take part", bs.outer_guards == [need],
            f"guards around the acceptance: {[show(g)[:80] for g in bs.outer_guards]}", line=li.line)
     from ..ir import is_neg_float_max
